@@ -33,15 +33,18 @@ let parse_op s : (ev * bool) option =
   let body, marks = match String.index_opt body ':' with
     | Some i -> String.sub body 0 i, ids_of (String.sub body (i+1) (String.length body - i - 1))
     | None -> body, [] in
+  (* a<id>+c+c / q<id>+c+c : managed / raw object whose destructor allocates; the model has no
+     such objects (the correspondence skips these cases), the specification treats them as plain *)
+  let body = match String.index_opt body '+' with Some i -> String.sub body 0 i | None -> body in
   let rest = String.sub body 1 (String.length body - 1) in
   let order, marks', observed = match obs with
     | Some o -> let (a, b) = parse_obs o in a, b, true
     | None -> [], marks, false in
   let nw k b = Some (ENew (k, b, nat_of_int (ios rest), order, marks'), observed) in
   match body.[0] with
-  | 'n' -> nw KManaged false | 'b' -> nw KManaged true
+  | 'n' | 'a' -> nw KManaged false | 'b' -> nw KManaged true
   | 'N' -> nw KRoot false | 'B' -> nw KRoot true
-  | 'w' -> nw KRaw false | 'W' -> nw KRaw true
+  | 'w' | 'q' -> nw KRaw false | 'W' -> nw KRaw true
   | 'l' -> (match String.split_on_char ',' rest with
             | [b; "-"] -> Some (ELink (nat_of_int (ios b), None), observed)
             | [b; o] -> Some (ELink (nat_of_int (ios b), Some (nat_of_int (ios o))), observed)
